@@ -14,7 +14,10 @@ RULE = ("generated applications (1-3 commands, sub-commands to depth 2; default 
         "at the widths needed_width + d, d in -2..12 (the guard of the width claim and the text widths 1..13 behind it), ANSI and "
         "plain; plus textwrap.wrap alone over adversarial ASCII texts x widths 1..40; 'help <path>' / '<path> --help' / '<path> -h' "
         "through DefaultApplicationConfig runs at COLUMNS 60 / 80 / 120, compared with each other and with the model's page of the "
-        "named command; non-trivial = a page with >= 1 argument or option and >= 1 wrapped paragraph / a text that wraps; "
+        "named command - the path given by names, by aliases (every command on the path that has an alias no sibling shares), and the "
+        "EMPTY path ('help' / '--help' / '-h': the application's page, compared with the model's application page of the live default "
+        "configuration); the USAGE block of a command page must not start an entry with the names of a disabled or a hidden "
+        "non-default sub-command; non-trivial = a page with >= 1 argument or option and >= 1 wrapped paragraph / a text that wraps; "
         "distinct by request")
 TRUSTED = ["textwrap.wrap (CPython) is modelled by hand in Model/Wrap.v for texts without tabs whose word characters are ASCII; the "
            "model is compared with textwrap.wrap itself on every run", "the layout elements are read from BlockLayout._elements / "
@@ -23,7 +26,11 @@ TRUSTED = ["textwrap.wrap (CPython) is modelled by hand in Model/Wrap.v for text
            "str.format, the text as it is when it is no valid template) and hands the model the result",
            "whether wrapping cut a text inside its markup (the narrow class of the recorded finding) is decided by the harness with "
            "CPython's textwrap and a copy of pastel's tag pattern, on the element texts and widths of the implementation"]
-ASSUMPTIONS = ["help texts and descriptions contain no tab and no non-ASCII word character; sibling commands have distinct names"]
+ASSUMPTIONS = ["help texts and descriptions contain no tab and no non-ASCII word character; sibling commands have distinct names",
+               "defaults are of the types json.dumps knows (str, int, float, bool, None, lists): a default of another type (a path, a "
+               "decimal, a date - the configuration accepts any object) makes _format_value raise TypeError on the unchanged tree, "
+               "genuinely (proposed-fixes/help-default-not-json); the input class is behind the switch FOREIGN_DEFAULTS until the "
+               "repair is in /repo"]
 
 SGR = re.compile("\x1b\\[[0-9;]*m")
 WIDTHS = [40, 47, 60, 80, 120, 200]
@@ -45,6 +52,34 @@ OPT_FLAGS = [G.NO_VALUE, G.REQ_V, G.OPT_V, G.MULTI_V, G.REQ_V | G.O_INT, G.NO_VA
              G.NO_VALUE | P_SHORT, G.REQ_V | P_LONG, G.OPT_V | P_SHORT, G.MULTI_V | P_LONG, G.REQ_V | G.O_FLOAT, G.REQ_V | G.O_BOOL, G.REQ_V | G.MULTI_V]
 DEFAULTS = {"str": ["dv", "a \"quoted\" one", "é", "<b>", ""], "int": [0, 42, -7], "bool": [True, False], "list": [["x", "y"], [1, 2], []],
             "float": [1.5, float("nan"), float("inf"), -2.0]}
+# defaults of a type json.dumps does not know (the configuration accepts any object as a default): written in a case as
+# {"py": type, "v": text}.  AbstractHelp._format_value raised TypeError on them (proposed-fixes/help-default-not-json); with the
+# repair the page shows str(value) as a JSON string, which is what the model prints for the default str(value).
+# FOREIGN_DEFAULTS: generate them.  Off until that repair is in /repo (until then every such page raises, genuinely, and the check
+# must stay silent on the unchanged tree): make "1" the default below then.  VERIF_C13_FOREIGN_DEFAULTS=1 bin/check C13 quick tries it.
+FOREIGN_DEFAULTS = os.environ.get("VERIF_C13_FOREIGN_DEFAULTS", "0") == "1"
+FOREIGN = [{"py": "path", "v": "/tmp/some dir/x"}, {"py": "decimal", "v": "1.50"}, {"py": "date", "v": "2020-01-02"}]
+
+
+def real_default(d):
+    """the default the configuration is given"""
+    if isinstance(d, dict):
+        if d["py"] == "path":
+            import pathlib
+            return pathlib.PurePosixPath(d["v"])
+        if d["py"] == "decimal":
+            import decimal
+            return decimal.Decimal(d["v"])
+        import datetime
+        return datetime.date(*[int(x) for x in d["v"].split("-")])
+    return list(d) if isinstance(d, list) else d
+
+
+def model_default(d):
+    """... and the one the model is given: str(value) for a value of a type json does not know"""
+    return str(real_default(d)) if isinstance(d, dict) else d
+
+
 CMD_NAMES = ["server", "add", "list", "run", "b", "info"]
 LONG_CMD_NAMES = ["synchronize-repositories", "regenerate-configuration"]
 VNAMES = ["...", "value", "b", "path", "value-name-here"]
@@ -71,6 +106,8 @@ def rand_opt(rng, used):
                 d = rng.choice(DEFAULTS["list"])
             else:
                 d = rng.choice(DEFAULTS[rng.choice(["str", "int", "bool", "float"])])
+                if FOREIGN_DEFAULTS and rng.random() < 0.15:
+                    d = rng.choice(FOREIGN)
         return {"long": long, "short": short, "flags": fl, "desc": rng.choice(EDESCS), "default": d, "vname": rng.choice(VNAMES)}
     return None
 
@@ -89,6 +126,8 @@ def rand_args(rng, st, used):
         d = None
         if not kind & G.A_REQ and rng.random() < 0.5:
             d = rng.choice(DEFAULTS["list"]) if kind & G.A_MULTI else rng.choice(DEFAULTS["str"] + DEFAULTS["int"] + DEFAULTS["float"])
+            if FOREIGN_DEFAULTS and not kind & G.A_MULTI and rng.random() < 0.15:
+                d = rng.choice(FOREIGN)
         if kind & G.A_MULTI:
             st["multi"] = True
         if not kind & G.A_REQ:
@@ -264,12 +303,12 @@ def ref_format(help, **names):
 
 
 def w_opt(o):
-    return [[S(o["long"]), [] if o["short"] is None else [S(o["short"])], o["flags"], enc_val(o["default"])],
+    return [[S(o["long"]), [] if o["short"] is None else [S(o["short"])], o["flags"], enc_val(model_default(o["default"]))],
             [] if o["desc"] is None else [S(o["desc"])], S(o["vname"])]
 
 
 def w_arg(a):
-    return [[S(a["name"]), a["flags"], enc_val(a["default"])], [] if a["desc"] is None else [S(a["desc"])]]
+    return [[S(a["name"]), a["flags"], enc_val(model_default(a["default"]))], [] if a["desc"] is None else [S(a["desc"])]]
 
 
 def o_(v):
@@ -368,7 +407,7 @@ def build(t):
     def add_opts(cfg, opts):
         for o in opts:
             d = o["default"]
-            cfg.add_option(o["long"], o["short"], o["flags"], o["desc"], list(d) if isinstance(d, list) else d, o["vname"])
+            cfg.add_option(o["long"], o["short"], o["flags"], o["desc"], real_default(d), o["vname"])
 
     def fill(cc, c):
         for a in c["aliases"]:
@@ -388,7 +427,7 @@ def build(t):
         add_opts(cc, c["opts"])
         for a in c["args"]:
             d = a["default"]
-            cc.add_argument(a["name"], a["flags"], a["desc"], list(d) if isinstance(d, list) else d)
+            cc.add_argument(a["name"], a["flags"], a["desc"], real_default(d))
         for s in c["subs"]:
             fill(cc.create_sub_command(s["name"]), s)
     add_opts(config, t["gopts"])
@@ -421,10 +460,10 @@ def default_app(t):
             cc.anonymous()
         for o in c["opts"]:
             d = o["default"]
-            cc.add_option(o["long"], o["short"], o["flags"], o["desc"], list(d) if isinstance(d, list) else d, o["vname"])
+            cc.add_option(o["long"], o["short"], o["flags"], o["desc"], real_default(d), o["vname"])
         for a in c["args"]:
             d = a["default"]
-            cc.add_argument(a["name"], a["flags"], a["desc"], list(d) if isinstance(d, list) else d)
+            cc.add_argument(a["name"], a["flags"], a["desc"], real_default(d))
         for s in c["subs"]:
             fill(cc.create_sub_command(s["name"]), s)
     for c in t["cmds"]:
@@ -717,6 +756,16 @@ def oracle(c, o):
     return r
 
 
+def block_of(lines, heading):
+    """the lines of the block under a heading of the page (up to the next line that starts in column 0); all lines when the page
+    has no such heading line (none to show, or a page so narrow that the heading itself is wrapped)"""
+    if heading not in lines:
+        return lines
+    k = lines.index(heading)
+    end = min([i for i in range(k + 1, len(lines)) if lines[i] and not lines[i].startswith(" ")] or [len(lines)])
+    return lines[k + 1:end]
+
+
 def oracle0(c, o):
     elems, page, W = o[0], o[1], o[2]
     t = c["tree"]
@@ -769,8 +818,9 @@ def oracle0(c, o):
                 return True
         return False
     if c["k"] == 1:
+        listing = block_of(lines, "AVAILABLE COMMANDS")
         for x in t["cmds"]:
-            shown = any(re.match(r"^  %s( |$)" % re.escape(x["name"]), l) for l in lines)
+            shown = any(re.match(r"^  %s( |$)" % re.escape(x["name"]), l) for l in listing)
             want = x["enabled"] and not x["hidden"] and not x["anonymous"]
             if shown != want:
                 return "command-listing-wrong:%s" % ("missing" if want else "hidden-or-disabled-shown")
@@ -824,8 +874,10 @@ def oracle0(c, o):
                 w_ = base + " " + s["name"]
                 if any(e == w_ or e.startswith(w_ + " ") for e in entries):
                     return "hidden-or-disabled-command-in-usage"
+    # (inside the COMMANDS block: a wrapped line of the DESCRIPTION may consist of a command's name)
+    listing = block_of(lines, "COMMANDS")
     for s in cur["subs"]:
-        shown = any(re.match(r"^  %s$" % re.escape(s["name"]), l) for l in lines)
+        shown = any(re.match(r"^  %s$" % re.escape(s["name"]), l) for l in listing)
         want = s["enabled"] and not s["hidden"] and not s["anonymous"]
         if shown != want:
             return "sub-command-listing-wrong:%s" % ("missing" if want else "hidden-or-disabled-shown")
